@@ -1,0 +1,13 @@
+//go:build verif
+
+package dawn
+
+// VerifHook, when set, is called at every verifPoint. It is only ever set by the
+// verification harness under /verif, before any goroutine that reaches a point starts.
+var VerifHook func(name string, arg any)
+
+func verifPoint(name string, arg any) {
+	if h := VerifHook; h != nil {
+		h(name, arg)
+	}
+}
